@@ -18,7 +18,7 @@ RULE = ("seeded populations: 2 agent types, 3 states, >=2 agents per (type,state
         "every fifth names a second agent-based manager in the same request, every fourth repeats the request and then simulates again after reset_scenario_cache with another script (same run specs) and asks for the same selection. distinct_nontrivial = distinct (type,state,property) cells observed at some time with "
         "total != min != max != mean (pairwise different).")
 ASSUMPTIONS = ["where only part of the agents of a cell carry a numeric property (a String property re-declared as a number for some agents mid-run) total / min / max are judged, mean is not", "comparison tolerance 1e-9 relative"]
-REQUIRED = {"direct_reruns_on_shorter_grid": 5, "two_manager_requests": 10, "reruns_checked": 20, "multi_scenario_rounds": 20, "postcondition_evaluations": 500, "cells_checked": 5000, "output_cells_checked": 2000, "cells_all_different": 100}
+REQUIRED = {"populations_given_as_numpy_numbers": 15, "direct_reruns_on_shorter_grid": 5, "two_manager_requests": 10, "reruns_checked": 20, "multi_scenario_rounds": 20, "postcondition_evaluations": 500, "cells_checked": 5000, "output_cells_checked": 2000, "cells_all_different": 100}
 BUDGET_S = {"quick": 100, "thorough": 1200}
 STATES = ["active", "idle", "busy"]
 VALS = [-7.5, -1.0, 0.0, 0.0, 1.0, 2.5, 3.0, 10.0, 1e6, 0.1, 42.0, -0.25]
@@ -228,7 +228,21 @@ def run_case(case):
     _st["fail"] = None
     _st["alldiff"] = set()
     names = ["sc%d" % i for i in range(nscen)]
-    scen = {n: {"runspecs": {"starttime": 1, "stoptime": sc["rounds"], "dt": float(sc["dt"])}, "properties": {}, "agents": v["agents"]} for n, v in zip(names, variants)}
+    def numpyfied(agents):
+        # the initial population as a numpy-based generator would hand it over: whole numbers as numpy integers, reals as numpy doubles
+        import copy, numpy as np
+        out = copy.deepcopy(agents)
+        for spec in out:
+            for pn, pv in (spec.get("properties") or {}).items():
+                if pv["type"] == "Integer":
+                    pv["value"] = np.int64(pv["value"])
+                elif pv["type"] == "Double":
+                    pv["value"] = np.float64(pv["value"])
+        return out
+    as_numpy = case["seed"] % 3 == 1
+    if as_numpy:
+        counters["populations_given_as_numpy_numbers"] = 1
+    scen = {n: {"runspecs": {"starttime": 1, "stoptime": sc["rounds"], "dt": float(sc["dt"])}, "properties": {}, "agents": numpyfied(v["agents"]) if as_numpy else v["agents"]} for n, v in zip(names, variants)}
     # the manager is built from a live model that carries its own collector
     base = abm.LogModel(name="abm", scheduler=abm.SimultaneousScheduler(), data_collector=abm.LogCollector())
     b = bptk()
